@@ -25,6 +25,9 @@ PAIRS = [
     ("@a{d1, t = {v}}\n@a{d1, t = {dup}}", "@b{d2, u = {w}}\n@b{d2, u = {dup}}"),
     ("% only text\n@a{d1, t = {\\\\\n}}", "@string{z2 = \"a\" # \"b\"}"),
     ("", "@b{d2, u = {w}}"),
+    # escaped delimiters on the line of D2's opener (they are literal text: no brace is closed or opened by them)
+    ("@a{d1, t = {v\\}}}", "@b{d2, g = {a\\}}}\n@b{d2b, h = \"\\{\"}"),
+    ("@comment{c1 \\{}", "@b{d2, g = {\\{ x}, h = {y\\}\\}}} trailing \\} text\n"),
 ]
 
 
